@@ -252,10 +252,9 @@ func init() {
 	var arrayType parsec.Parser
 	var mapType parsec.Parser
 	var structType parsec.Parser
-	var tupleType parsec.Parser
 
 	var declarationType = parsec.OrdChoice(nil,
-		basicType(), &mapType, &arrayType, &structType, &tupleType)
+		basicType(), &mapType, &arrayType, &structType)
 
 	arrayType = parsec.And(nodifyArrayType,
 		parsec.Atom("[", "MapStart"),
@@ -288,12 +287,10 @@ func init() {
 		parsec.Atom(")", "TypeParameterClose"),
 		parsec.Maybe(nil, structDefinition))
 
-	// tupleType is covered by structType (kept in the ordered choice
-	// for clarity, never reached).
-	tupleType = parsec.And(nodifyTupleType,
-		parsec.Atom("(", "TypeParameterStart"),
-		&listType,
-		parsec.Atom(")", "TypeParameterClose"))
+	// A plain tuple is the structType alternative without definition:
+	// a second "(" alternative in the ordered choice would parse the
+	// inside of an unclosed parenthesis twice, i.e. 2^depth times for
+	// "((((...".
 
 	mapType = parsec.And(nodifyMap,
 		parsec.Atom("{", "MapStart"),
